@@ -65,6 +65,19 @@ func main() {
 		// one load, every property, one line per property (used by tools/seed_matrix.py and the
 		// mutation sweep; evidence files are not written)
 		os.Exit(sweep(repo, verif, os.Args[2:]))
+	case "normalize":
+		// [std] debugging aid: neatcheck normalize <module dir> <out dir> [pin-all] writes the normalised module
+		if len(os.Args) < 4 {
+			usage()
+		}
+		lg, err := nc.NormalizeDir(os.Args[2], os.Args[3], len(os.Args) > 4 && os.Args[4] == "pin-all")
+		for _, l := range lg {
+			fmt.Println(l)
+		}
+		if err != nil {
+			fmt.Println(err)
+			os.Exit(1)
+		}
 	case "debug":
 		nc.Debug(repo, os.Args[2:])
 	default:
